@@ -6,12 +6,15 @@ mod progs;
 mod parselayer;
 mod progproto;
 mod compilelayer;
+mod rtproto;
+mod seslayer;
 
 pub fn dispatch_answer(req: &str) -> String {
     let parts: Vec<&str> = req.split(' ').collect();
     match parts[0] {
         "PARSE" => parselayer::answer_parse(&parts),
         "COMPILE" => compilelayer::answer_compile(req),
+        "SES" => seslayer::answer_ses(req),
         _ => ops::answer(req),
     }
 }
@@ -36,6 +39,8 @@ fn main() {
         "ops-fmt" => ops::gen_fmt(&mut w, &tier, seed),
         "parse" => parselayer::gen_parse(&mut w, &tier, seed),
         "compile" => compilelayer::gen_compile(&mut w, &tier, seed),
+        "ses" => seslayer::gen_ses(&mut w, &tier, seed),
+        "hist" => seslayer::gen_hist(&mut w, &tier, seed),
         "replay" => ops::replay(&mut w),
         other => {
             eprintln!("unknown layer {}", other);
